@@ -32,13 +32,14 @@ def log(*a):
 
 
 class Lock:
-    def __init__(self, name):
+    def __init__(self, name, shared=False):
         os.makedirs(WORK, exist_ok=True)
         self.path = os.path.join(WORK, name + ".lock")
+        self.shared = shared
 
     def __enter__(self):
-        self.f = open(self.path, "w")
-        fcntl.flock(self.f, fcntl.LOCK_EX)
+        self.f = open(self.path, "a")
+        fcntl.flock(self.f, fcntl.LOCK_SH if self.shared else fcntl.LOCK_EX)
         return self
 
     def __exit__(self, *a):
@@ -150,6 +151,8 @@ def build_lean(prop, tier="quick"):
             res["failed"] += errs[:20] or ["lake build " + " ".join(cfg["props"])]
             res["discharged"] = 0
             return res
+    # readers of the compiled files (leanchecker, axioms audit) only exclude concurrent builds
+    with Lock("lake", shared=True):
         # 1b. thorough tier: independent re-check of the compiled proof modules by leanchecker
         res["leanchecker"] = None
         if tier == "thorough":
